@@ -9,19 +9,16 @@ package mt
 //@   ensures MTC(cols, 0) == 0
 //@ axiom mtcS(cols, n)
 //@   ensures n >= 0 ==> MTC(cols, n + 1) == MTC(cols, n) + len(cols[n].Mts)
-//@ axiom mtcMono(cols, j, n)
-//@   ensures 0 <= j && j <= n ==> MTC(cols, j) <= MTC(cols, n)
 
 // Genesis import (C12, C15): every class and every token of every class is stored, and the id sequences continue after
 // everything that was imported - the next class number is one more than the number of classes, the next token number
 // one more than the number of tokens of ALL classes - so that an id generated later never collides with an imported one.
 //@ func InitGenesis
 //@   property C12, C15
-//@   requires forall j:Int :: 0 <= j && j < len(data.Collections) ==> !data.Collections[j].Denom.isnil
-//@   requires MTC(data.Collections, len(data.Collections)) < 4611686018427387904
+//@   requires forall j:Int :: 0 <= j && j < len(data.Collections) ==> !data.Collections[j].Denom.isnil && len(data.Collections[j].Mts) >= 0
+//@   requires forall n:Int :: 0 <= n && n <= len(data.Collections) ==> 0 <= MTC(data.Collections, n) && MTC(data.Collections, n) < 4611686018427387904
 //@   uses mtc0(data.Collections)
 //@   uses mtcS(data.Collections, 0)
-//@   uses mtcMono(data.Collections, 0, 0)
 //@   modifies denoms, mts, supplies, balances, denomSeq, mtSeq
 //@   invariant #1 idx:  rangeindex >= 0 - 1 && rangeindex < len(data.Collections)
 //@   invariant #1 seq:  mtSequence == 1 + MTC(data.Collections, rangeindex + 1) && has(denomSeq) && get(denomSeq) == len(data.Collections) + 1
